@@ -24,7 +24,7 @@ func init() {
 			"(6b) inside a child namespace the root-only sys APIs (restrictedSysAPIs) and an own or inherited API lock are refused before request handling; " +
 			"(7b) Store.ACL fetches each named policy in the namespace its map key resolves to; (7c) switchedGetPolicy returns a cached or stored policy object only across the no-expiration / not-yet-expired edge; (7d) Store.cacheKey appends the policy name verbatim to the namespace UUID and never passes it through a cleaning join (path.Join/Clean), so a name cannot address another namespace's cache entry; " +
 			"(1g) in hierarchy mode a foreign-namespace group policy applies only across policyNS.HasParent(tokenNS); (3b) LoginPath / RootPath answer true only on the exact-match, prefix-entry or wildcard arm; " +
-			"(9) sys/seal and sys/step-down act only after a populated and fetched token, live entity, successful audit and an allowing policy check built with RootPrivsRequired = true. (10) in ACL.AllowOperation each of read/update/create/patch reaches an allow only after the required-, denied- and allowed-parameter checks, and their refusing edges never allow (shared with C03.8). (7e) before a templated policy is expanded with identity values, both independent opt-in flags (slashes, wildcards) are consulted on every path, so that \"/\", \"*\" and \"+\" are refused as substituted values unless the policy allows them.",
+			"(11) every field of a policy stanza (PathRules) that NewACL reads is written by parsePaths or filled by the tagged HCL decode, a field parsed from a raw attribute (Expiration) is stored from that parse before the stanza is appended, and NewACL merges a stanza only across 'no expiration or not yet expired'; (9) sys/seal and sys/step-down act only after a populated and fetched token, live entity, successful audit and an allowing policy check built with RootPrivsRequired = true. (10) in ACL.AllowOperation each of read/update/create/patch reaches an allow only after the required-, denied- and allowed-parameter checks, and their refusing edges never allow (shared with C03.8). (7e) before a templated policy is expanded with identity values, both independent opt-in flags (slashes, wildcards) are consulted on every path, so that \"/\", \"*\" and \"+\" are refused as substituted values unless the policy allows them.",
 		NotDecided: "that the ACL's decision is the right one (C03's clauses); absence of storage effects of a refused request as an observed effect; interleavings of policy/token mutation with requests; what each HTTP route outside Core.HandleRequest does.",
 		Run:        runC02,
 	})
